@@ -698,3 +698,66 @@ def check_C17(tier, seed):
     cov["debug_text_samples"] = texts[:6]
     vlib.write_evidence("C17", tier, seed, "model_checking", cov, COMMON_ASSUME[:2] + ["state leakage is detected as seed-dependence of the text: every history is run under >= 5 seeds / timer scripts; content that does not depend on seed or state is not state"], time.time() - t0, nviol)
     return 1 if nviol else 0
+
+
+# ---------------------------------------------------------------- C19
+def parse_scheds(out):
+    import re
+    res = []
+    for t in vlib.extract_tuples(out, "SCHED"):
+        steps = re.findall(r'<<(\d+), (\d+), "(\w+)">>', t)
+        if steps:
+            res.append([(int(g), int(th), op) for g, th, op in steps])
+    return res
+
+
+def check_C19(tier, seed):
+    import subprocess
+    t0 = time.time()
+    wd = vlib.workdir("mc-C19")
+    mc = run_mc("MC_Instances", "MC_Instances.cfg", wd, workers=4)
+    run_mc("MC_Instances", "neg/MC_Instances_global.cfg", wd, workers=2, expect_violation=True)
+    run_mc("MC_Instances", "neg/MC_Instances_tls.cfg", wd, workers=2, expect_violation=True)
+    gen = run_mc("MC_Instances", "MC_Instances_gen.cfg", wd, workers=1)
+    scheds = parse_scheds(gen["out"])
+    if len(scheds) < 100:
+        raise ToolError("MC_Instances_gen produced only %d interleavings" % len(scheds))
+    nviol = 0
+    # Send / Sync: a compile-time fact, checked by compiling the static assertions separately
+    vlib.build_harness()
+    p = subprocess.run(["cargo", "build", "--offline", "--quiet", "--bin", "sendsync"], cwd=vlib.HARNESS,
+                       env=dict(os.environ, CARGO_NET_OFFLINE="true"), stdout=subprocess.PIPE, stderr=subprocess.STDOUT, text=True)
+    sendsync_ok = p.returncode == 0
+    if not sendsync_ok:
+        if "Send" in p.stdout or "Sync" in p.stdout:
+            path = vlib.write_replay("C19", {"property": "C19", "case": "Send/Sync static assertion", "signature": "sendsync",
+                                             "compiler_output": p.stdout[-3000:], "how": "cd /verif/harness && cargo build --offline --bin sendsync"})
+            print("VIOLATION property=C19 replay=%s" % path)
+            print("  a generator type is no longer Send + Sync: " + p.stdout[-600:].replace("\n", " | "))
+            nviol += 1
+        else:
+            raise ToolError("sendsync did not compile for an unrelated reason:\n" + p.stdout[-2000:])
+    S = corpora.c19_corpus(seed, tier, scheds)
+    parts = []
+    ev, cs, res = run_trace("C19", S, "Trace_Stream.tla", "Trace_Stream.cfg")
+    parts.append((ev, cs, res))
+    nviol += report_rejections("C19", res["rejected"], S)
+    # the one real static: JitterRng::new() must not influence new_with_timer instances
+    S2 = vlib.Sched()
+    import random as _r
+    rng = _r.Random(seed + 1919)
+    ops = [{"op": "jit_std_new", "th": 1}]
+    sc = corpora.jitter_script(rng, [("random", 400)])
+    ops += [{"op": "timer", "t": 1, "readings": [vlib.u64(x) for x in sc], "cont": corpora.CONT},
+            {"op": "jit_new", "g": 1, "t": 1, "th": 2}, {"op": "jit_std_new", "th": 2}, {"op": "next_u32", "g": 1, "th": 1},
+            {"op": "jit_new", "g": 2, "t": 1}, {"op": "next_u64", "g": 2, "th": 2}, {"op": "next_u32", "g": 1, "th": 2}]
+    S2.case("JitterRng::new() cache vs new_with_timer", ops)
+    ev2, cs2, res2 = run_trace("C19b", S2, "Trace_Jitter.tla", "Trace_Jitter.cfg", weight=jit_weight)
+    parts.append((ev2, cs2, res2))
+    nviol += report_rejections("C19", res2["rejected"], S2)
+    cov = base_cov(parts, "TLC explores the instance machine (3 instances, 2 threads, every constructor / output interleaving, JitterRng::new()'s process-wide cache) and checks UsesOwnSeed, SoloResults, CacheOnlyAffectsNewStd and the frame property, with two negative controls (a process-wide and a thread-local seed cache); complete interleavings printed by TLC (2 instances x 3 outputs x thread assignments) are executed on persistent OS threads with instances moved between them, next to unscripted background threads hammering constructors of the same kinds (zero seeds, seed_from_u64(0)); every instance's outputs are validated by Trace_Stream against its own solo twin. distinct = distinct recorded events", ["Trace_Stream", "Trace_Jitter"])
+    cov["mc_model"] = {"states_generated": mc["states"], "distinct": mc["distinct"], "interleavings_enumerated_by_TLC": len(scheds),
+                       "interleavings_executed": len(S.cases), "negative_controls": ["LeakMode=global", "LeakMode=threadlocal"]}
+    cov["send_sync_static_assertion_compiles"] = sendsync_ok
+    vlib.write_evidence("C19", tier, seed, "model_checking", cov, COMMON_ASSUME[:2] + ["interleavings are enforced by a sequencer (one operation at a time, on the scripted thread); background threads run unscripted to disturb caches, never to produce verdicts"], time.time() - t0, nviol)
+    return 1 if nviol else 0
